@@ -1,0 +1,21 @@
+//go:build verif && !deadlock
+
+package blockchain
+
+// Add-only wrappers for the out-of-tree verification harness (/verif, family `peer`, property C18):
+// the health of the reactor's mutex after a peer's message.  Nothing here is compiled without the
+// build tag `verif`.
+
+// VerifPeerMutexFree reports whether r.mtx is free (no reader, no writer): TryLock, then Unlock.
+// After Receive has returned nobody may still hold it.
+func (r *BlockchainReactor) VerifPeerMutexFree() bool {
+	if !r.mtx.TryLock() {
+		return false
+	}
+	r.mtx.Unlock()
+	return true
+}
+
+// VerifPeerSetMaxPeerHeight is the bcStatusResponse arm of demux up to the hand-over to the
+// scheduler: r.setMaxPeerHeight(height) - a WRITER on r.mtx.
+func (r *BlockchainReactor) VerifPeerSetMaxPeerHeight(height uint64) { r.setMaxPeerHeight(height) }
